@@ -11,7 +11,6 @@ import (
 	"strings"
 	"time"
 
-
 	"wrverif/mp"
 	"wrverif/render"
 	"wrverif/res"
@@ -186,7 +185,7 @@ func runShapes(m *mp.Model, r *rng.R, n int, out *res.Result) error {
 			if mm := walk(impl, ms.ops, cmpMode{exact: true}); mm != nil {
 				out.Add(res.Finding{Kind: "corr", Op: "corr:shape", Input: src, Impl: opsString(impl), Model: mx.String(), Reason: mm.String(), Seed: caseSeed})
 			}
-			if mm := walk(impl, ss.ops, cmpMode{judge: true, lineTol: 1e-6, cubicTol: 1e-6, arcTol: 1e-3}); mm != nil {
+			if mm := walk(impl, ss.ops, cmpMode{judge: true, closeByLine: true, lineTol: 1e-6, cubicTol: 1e-6, arcTol: 1e-3}); mm != nil {
 				out.Add(res.Finding{Kind: "judge", Op: "judge:shape", Input: src, Impl: opsString(impl), Model: sxp.String(), Reason: mm.String(), Seed: caseSeed})
 			}
 			continue
@@ -207,7 +206,7 @@ func runShapes(m *mp.Model, r *rng.R, n int, out *res.Result) error {
 		if mm := walk(impl, mops, cmpMode{exact: true, cubicTol: tol20}); mm != nil {
 			out.Add(res.Finding{Kind: "corr", Op: "corr:shape", Input: src, Impl: opsString(impl), Model: mx.String(), Reason: mm.String(), Seed: caseSeed})
 		}
-		if mm := walk(impl, sops, cmpMode{judge: true, lineTol: 1e-6, cubicTol: 1e-6, arcTol: 1e-3}); mm != nil {
+		if mm := walk(impl, sops, cmpMode{judge: true, closeByLine: true, lineTol: 1e-6, cubicTol: 1e-6, arcTol: 1e-3}); mm != nil {
 			k := ""
 			switch {
 			case kind == 0 && mm.maxDev > 1e-3 && mm.maxDev < 5e-2:
@@ -329,7 +328,6 @@ func runViewbox(m *mp.Model, r *rng.R, n int, out *res.Result) error {
 		if ans.Head() != "ok" || len(ans.Xs) != 3 {
 			return fmt.Errorf("model rejected viewbox request: %s", ans)
 		}
-		scale := math.Max(1, math.Max(W, H))
 		cmp := func(x sx.X) string {
 			if x.K != sx.List || len(x.Xs) != 4 {
 				return "unreadable " + x.String()
@@ -338,6 +336,11 @@ func runViewbox(m *mp.Model, r *rng.R, n int, out *res.Result) error {
 			for q := 0; q < 4; q++ {
 				f, _, _ := ratF(x.Xs[q])
 				want[[4]int{0, 3, 4, 5}[q]] = f
+			}
+			// float32 rounding is relative to the largest intermediate (viewBox size and origin times the scale)
+			scale := math.Max(1, math.Max(W, H))
+			for _, v := range []float64{vw * want[0], vh * want[3], vx * want[0], vy * want[3]} {
+				scale = math.Max(scale, math.Abs(v))
 			}
 			for q := 0; q < 6; q++ {
 				if math.Abs(got[q]-want[q]) > tol20*math.Max(scale, math.Abs(want[q])) {
